@@ -118,7 +118,7 @@ def mk_window(anchor, W, name, tier="quick"):
     return MirOb(name, "maybe_from_gregorian@src/epoch/gregorian.rs", ins, post,
                  f"maybe_from_gregorian, years {anchor-W}..{anchor+W}: Ok for every valid date-time, Err for every invalid one (never a shifted date), and for second < 60 "
                  "elapsed time = exact day count x 86400 s + time of day - the scale's civil zero, to the nanosecond; all nine scales",
-                 "maybe_from_gregorian", pre=pre, probes=probes, ret_shape="Result<Epoch>", min_paths=2 * W, loop_bound=W + 3, tier=tier, timeout_ms=60000,
+                 "maybe_from_gregorian", pre=pre, probes=probes, ret_shape="Result<Epoch>", min_paths=2 * W, loop_bound=W + 3, tier=tier, timeout_ms=60000, probe_witness=True,
                  summaries={"::gregorian_epoch_offset": summary_gregorian_epoch_offset},
                  bounds=f"year in [{anchor-W}, {anchor+W}] (loop forks once per year, bound {W+3}); month, day, hour, minute, second, nanosecond, time scale fully symbolic",
                  functions=["Epoch::maybe_from_gregorian", "is_gregorian_valid", "is_leap_year", "usual_days_per_month", "january_years", "july_years",
@@ -236,7 +236,7 @@ def mk_all_years(tier="quick"):
                f"maybe_from_gregorian for EVERY year in [-{YMAX}, {YMAX}] at once: the two leap-day loops are discharged by inductive invariants "
                "(one arbitrary iteration preserves `accumulated = entry + 86400 s x (leap years in [start, y))`, so every iteration count is covered); "
                "result = exact day count x 86400 s + time of day - the scale's civil zero, Err exactly for invalid fields; all nine scales",
-               "maybe_from_gregorian", pre=pre, probes=probes, ret_shape="Result<Epoch>", min_paths=8, loop_bound=8, tier=tier, timeout_ms=120000, nprobe=40, feas_timeout_ms=1500,
+               "maybe_from_gregorian", pre=pre, probes=probes, ret_shape="Result<Epoch>", min_paths=8, loop_bound=8, tier=tier, timeout_ms=120000, nprobe=40, feas_timeout_ms=1500, probe_witness=True,
                summaries=dict(dur_arith_summaries(), **{"::gregorian_epoch_offset": summary_gregorian_epoch_offset, "is_gregorian_valid": summary_is_gregorian_valid, "is_leap_year": summary_is_leap_year}),
                summaries_concrete={"::gregorian_epoch_offset": summary_gregorian_epoch_offset},
                loop_contracts=[LoopContract("::maybe_from_gregorian", 0, ["iter", "duration_wrt_ref"], _inv_leap_loop(+1), "leap days after 1900", lemmas=_lemma_iter),
@@ -269,7 +269,7 @@ def obligations(tier, seed):
     obs = [
         MirOb("c08_validity", "is_gregorian_valid", ins, post_valid,
               "is_gregorian_valid: every must-reject field combination is rejected and every valid date-time accepted (month lengths, 4/100/400 rule, second 60 only at 23:59 on generated leap-second days); no panic for any field values",
-              "is_gregorian_valid", probes=probes, ret_shape="bool", min_paths=4, timeout_ms=120000,
+              "is_gregorian_valid", probes=probes, ret_shape="bool", min_paths=4, timeout_ms=120000, probe_witness=True,
               bounds="full width: every i32 year x u8 month, day, hour, minute, second x u32 nanosecond",
               functions=["is_gregorian_valid", "usual_days_per_month", "is_leap_year", "january_years", "july_years"]),
         MirOb("c08_is_leap_year", "is_leap_year", [In("y", "i32")], lambda env, ret, refs: ret.e == leap(env["y"]),
